@@ -65,7 +65,7 @@ M = [
  ('clear-constraints-no-invalidate', 'stage.py', '        self._set_transcribed(False)\n        self._constraints = defaultdict(list)', '        self._constraints = defaultdict(list)', ['C13']),
  ('add-objective-no-invalidate', 'stage.py', '        self._set_transcribed(False)\n        self._objective = self._objective + term', '        self._objective = self._objective + term', ['C13']),
  ('method-inherit-solver', 'direct_method.py', "        if template and template._solver_options is not None:\n            self._solver_options = template._solver_options", "        if template and template._solver_options is not None:\n            self._solver_options = {}", ['C13']),
- ('set-initial-not-reapplied', 'stage.py', "                self._method.set_initial_all(self._augmented, self.master._method, self._initial)", "                pass", ['C13']),
+ ('set-initial-not-reapplied', 'stage.py', "            if hasattr(self._method, 'set_initial_all'):\n                self._method.set_initial_all(self._augmented, self.master._method, self._initial)", "            if hasattr(self._method, 'set_initial_all'):\n                pass", ['C13']),
  # --- C18
  ('load-drops-guesses', 'ocp.py', "            return pickle.load(open(name,\"rb\"))", "            r = pickle.load(open(name,\"rb\"))\n            r._initial = type(r._initial)()\n            return r", ['C18']),
  ('pickle-drops-solver-options', 'direct_method.py', "    def clean(self):\n        self.V = None\n        self.P = []\n", "    def clean(self):\n        self.V = None\n        self.P = []\n\n    def __getstate__(self):\n        d = dict(self.__dict__)\n        d['_solver_options'] = {}\n        return d\n", ['C18']),
@@ -120,7 +120,24 @@ M = [
  ('dc-quad-weights-radau1', 'direct_collocation.py', "        self.B = hcat(B)\n", "        pass\n", ['C03', 'C05']),
  # --- C19
  ('tofunction-dc-helper-init', 'direct_collocation.py', "                self.Xc_vars0.append(repmat(x, 1, self.degree if i==0 else self.degree+1))", "                self.Xc_vars0.append(repmat(self.X[0], 1, self.degree if i==0 else self.degree+1))", ['C19']),
- ('tofunction-args-value', 'direct_method.py', "        return self.opti.to_function(name, [stage.value(a) for a in args], results, *margs)", "        return self.opti.to_function(name, [stage.value(a) for a in args][::-1][::-1], [r*1 for r in results][::-1][::-1] if False else [results[0]*2]+list(results[1:]), *margs)", ['C19']),
+ ('tofunction-args-value', 'sampling_method.py', "        if not local:\n            return opti.to_function(name, args_v, results, *margs)", "        if not local:\n            return opti.to_function(name, args_v, [results[0]*2]+list(results[1:]), *margs)", ['C19']),
+ # --- mechanisms repaired in batch 7 (one mutant each: the repair is load-bearing and its check instance notices its absence)
+ ('dc-last-control-equality', 'direct_collocation.py', "if k==-1 and is_same_expr(target, self.eval_at_control(stage, var, self.N-1)):", "if k==-1 and ca.is_equal(target, self.eval_at_control(stage, var, self.N-1)):", ['C10']),
+ ('spline-product-first-column', 'splines/spline.py', "rows = lambda c, idx: c[idx, :] if isinstance(c, (cas.MX, cas.SX, cas.DM)) else c[idx]", "rows = lambda c, idx: c[idx]", ['C15']),
+ ('substage-query-in-place', 'stage.py', "            self.master._transcribed # transcribes a copy: the declared specification stays as it is", "            self.master._transcribe()", ['C13']),
+ ('horizon-parameter-local-guesses', 'stage.py', "               (localized and horizon and depends_on(veccat(*horizon), veccat(*ca.symvar(MX(parameter))))):", "               False:", ['C09']),
+ ('clone-drops-inf-der', 'stage.py', "        ret._inf_der = HashOrderedDict(zip(self._inf_der.keys(), renew(self._inf_der.values())))\n", "", ['C12']),
+ ('clone-signal-derivative-unlinked', 'stage.py', "                ret._signals[symbol].derivative = ret._signals[signal.derivative.symbol]", "                pass", ['C17']),
+ ('signal-fraction-at-integrator', 'sampling_method.py', "signals=(self.signals, self.get_signals_at_fraction(stage, k, i/self.M)),", "signals=(self.signals, self.get_signals_at_fraction(stage, k, 0)),", ['C17']),
+ ('signal-fraction-at-root', 'sampling_method.py', "signals=(self.signals, self.get_signals_at_fraction(stage, k, (i+float(self.tau[j]))/self.M)),", "signals=(self.signals, self.get_signals_at_fraction(stage, k, i/self.M)),", ['C17']),
+ ('gist-greville-degree', 'sampling_method.py', "        G = get_greville_points(self.xi, s.degree)\n        return self.t0+G*self.T, (J[:,deps] @ s.coeff)+b", "        G = get_greville_points(self.xi, max(s.degree-1, 1))\n        return self.t0+G*self.T, (J[:,deps] @ s.coeff)+b", ['C17']),
+ ('dc-signal-guess-dropped', 'direct_collocation.py', "                if var in self.signals:\n                    target = stage.sample(var,'gist')[1]\n                    opti.set_initial(target, ca.repmat(value,1,target.shape[1]), cache_advanced=True)\n", "", ['C17']),
+ ('save-keeps-substage-copies', 'ocp.py', "            for s in self.iter_stages():\n                s._var_augmented = None\n", "", ['C18']),
+ ('quad-state-not-signal', 'stage.py', "vertcat(self.x, self.xq, self.u, self.z, self.t, self.DT, self.DT_control,", "vertcat(self.x, self.u, self.z, self.t, self.DT, self.DT_control,", ['C04']),
+ ('generic-localized-ratio', 'sampling_method.py', "        return (Tnext*(n[k+1]-n[k])==T*(n[k+2]-n[k+1]),{})", "        return (Tnext==T,{})", ['C06']),
+ ('generic-scale-first', 'sampling_method.py', "        n = self.normalized(N)\n        return n[1]-n[0]", "        n = self.normalized(N)\n        return 1.0/N", ['C06']),
+ ('callback-bound-early', 'direct_method.py', "        self._callback = (stage, fun)\n", "        opti_now = self.opti\n        self._callback = (stage, lambda iter, sol: fun(iter, OcpSolution(opti_now.non_converged_solution, stage)))\n", ['C13']),
+ ('time-vector-float', 'solution.py', "        return np.atleast_1d(self.sol.value(time)), DM2numpy(res, MX(expr).shape, time.numel())", "        return self.sol.value(time), DM2numpy(res, MX(expr).shape, time.numel())", ['C07']),
 ]
 
 def main():
